@@ -138,8 +138,15 @@ def check_native(c, argmap, env=None):
     env = dict(env or native_env())
     fdef, _, _ = front.find_def(c.qual)
     params = [a.arg for a in fdef.args.args]
+    # build the real call arguments first (stubs, streams, real objects), then snapshot them as the pre-state
+    try:
+        callargs = c.native_args(copy.deepcopy(argmap)) if c.native_args else copy.deepcopy(dict(argmap))
+    except Exception as ex:
+        out.pre_ok = False
+        out.detail = "argument builder raised %r" % ex
+        return out
     e0 = dict(env)
-    e0.update(argmap)
+    e0.update(copy.deepcopy(callargs))
     try:
         out.pre_ok = all(eval(r, e0) for r in c.requires)
         if c.known and out.pre_ok and eval(c.known, e0):
@@ -159,11 +166,6 @@ def check_native(c, argmap, env=None):
         for o in ol:
             vals.append(copy.deepcopy(eval(o, e0)))
         olds.append(vals)
-    callargs = dict(argmap)
-    if c.native_args:
-        callargs = c.native_args(copy.deepcopy(argmap))
-    else:
-        callargs = copy.deepcopy(callargs)
     fn = real_callable(c.qual)
     try:
         if params and params[0] in ("self", "cls") and c.args.get(params[0]) is None:
